@@ -8,6 +8,8 @@ ROOT = os.path.dirname(os.path.dirname(os.path.dirname(os.path.abspath(__file__)
 REPO = os.environ.get('VERIF_REPO', '/repo')
 BUILD = os.path.join(ROOT, os.environ.get('VERIF_BUILD_DIR', '.build'))   # alternative build dirs let a scratch copy of the repository be checked in parallel
 RUN_DIR = os.path.join(BUILD, 'run')
+# checks of a scratch copy (VERIF_BUILD_DIR set) must not overwrite the evidence of the real tree
+EVIDENCE_DIR = os.path.join(ROOT, 'evidence' if 'VERIF_BUILD_DIR' not in os.environ else 'evidence-' + os.environ['VERIF_BUILD_DIR'].strip('.'))
 # measured in this VM: page-fault bound, throughput saturates at ~8 plain / ~4 ASan processes (DESIGN.md section 11)
 NCPU = int(os.environ.get('VERIF_JOBS', '10'))
 JOBS = {'plain': NCPU, 'asan': int(os.environ.get('VERIF_JOBS_ASAN', '5'))}
@@ -83,6 +85,25 @@ def _asan_site(stderr):
     rw = re.search(r'\n(READ|WRITE) of size (\d+)', stderr)
     return kind, (frames[0] if frames else 'unknown'), (rw.group(1) if rw else ''), frames
 
+def _symbolize_crash(stderr, variant):
+    """function-level crash site on the sanitizer-free build: the harness prints pc + frame-pointer chain (image-relative),
+    llvm-symbolizer resolves them; returns ['func@file', ...] for frames inside the repository's sources"""
+    m = re.search(r'SIMCRASH sig=\d+ pcs=([0-9a-fx,]+)', stderr)
+    if not m:
+        return []
+    addrs = m.group(1).split(',')
+    try:
+        p = subprocess.run([SYMBOLIZER, '--obj=' + binary(variant), '--functions=linkage', '--no-inlines', '--relative-address'] + addrs, capture_output=True, text=True, timeout=60)
+    except Exception:
+        return []
+    out = [b for b in p.stdout.split('\n\n') if b.strip()]
+    frames = []
+    for b in out:
+        ls = b.strip().split('\n')
+        if len(ls) >= 2 and '/Source/' in ls[1]:
+            frames.append('%s@%s' % (ls[0], os.path.basename(ls[1].split(':')[0])))
+    return frames
+
 def run_case(case, variant='plain', timeout=None, keep=False):
     """Execute one simulated world in a fresh process.  Returns a result dict with at least
     outcome (class), detail, site, failures (oracle failures), ubsan (list of sites)."""
@@ -126,6 +147,9 @@ def run_case(case, variant='plain', timeout=None, keep=False):
             res['outcome'] = 'ASAN'; res['detail'] = '%s %s in %s' % (kind, rw, ' <- '.join(frames[:3]) or 'unknown'); res['site'] = '%s:%s' % (kind, site)
         elif rc < 0:
             res['outcome'] = 'SIGNAL'; res['detail'] = 'signal %d' % (-rc); res['site'] = 'signal%d' % (-rc)
+            frames = _symbolize_crash(err, variant)
+            if frames:
+                res['site'] = 'signal%d:%s' % (-rc, frames[0]); res['detail'] = 'signal %d in %s' % (-rc, ' <- '.join(frames[:3]))
         else:
             res['outcome'] = 'CRASH'; res['detail'] = 'exit code %d: %s' % (rc, err[-300:]); res['site'] = 'exit%d' % rc
     else:
@@ -293,8 +317,8 @@ class Evidence:
         }
         cov.update(self.extra)
         ev = {'property_id': self.prop, 'tier': self.tier, 'seed': int(self.seed), 'level': self.level, 'coverage': cov, 'assumptions': self.assumptions, 'wall_s': round(wall, 2), 'violations': len(self.violations)}
-        os.makedirs(os.path.join(ROOT, 'evidence'), exist_ok=True)
-        with open(os.path.join(ROOT, 'evidence', self.prop + '.json'), 'w') as f:
+        os.makedirs(EVIDENCE_DIR, exist_ok=True)
+        with open(os.path.join(EVIDENCE_DIR, self.prop + '.json'), 'w') as f:
             json.dump(ev, f, indent=1)
 
 def _brief(case):
